@@ -67,7 +67,11 @@ def check(rep):
     cases = []
     for a in operands:
         cases.append(("neg", a, None, ("Negation", a)))
-        for b in operands[:7] + operands[10:13]:
+        # (exponent expressions that look like something simpler: 1/n, 1/x, a bare number in a Constant)
+        exponent_like = [("Divide", ("Constant", 1), ("Constant", 2)), ("Divide", ("Constant", 1), ("Constant", 3.0)),
+                         ("Reciprocal", ("Constant", 2)), ("Constant", 3), ("Negation", ("Constant", 1)),
+                         ("Divide", x, ("Constant", 2))]
+        for b in operands[:7] + operands[10:13] + exponent_like:
             cases.append(("+", a, b, ("Add", [a, b])))
             cases.append(("-", a, b, ("Minus", a, b)))
             cases.append(("*", a, b, ("Multiply", [a, b])))
